@@ -368,6 +368,10 @@ def runLive07 (kv : List (String × String)) : IO Res := do
   let some d := findStream lc.dir ST_MEMORY_LIST | return .propfail "no memory list" tags
   let some ml := decodeMemoryList lc.img d | return .propfail "memory list unreadable" tags
   let stackStarts := lc.threads.filter (fun t => t.stackSize > 0) |>.map (fun t => (t.stackStart, t.stackSize, t.stackRva))
+  -- a dumper that reads the target word by word (PTRACE_PEEKDATA) reads every mapped page, whatever its protection, and
+  -- nothing of a range that runs into a hole
+  let ptraceOnly := get kv "readmode" == some "ptrace"
+  if ptraceOnly then tags := "read.ptrace" :: tags
   -- (1) faithful: every recorded byte equals the target's memory (where the snapshot covers it)
   let mut compared := 0
   for m in ml do
@@ -388,11 +392,12 @@ def runLive07 (kv : List (String × String)) : IO Res := do
   let readableAt (a : Nat) : Bool := lc.maps.any (fun l => l.s ≤ a && a < l.e && l.perms.testBit 0)
   for (p, l) in lc.cfg.app do
     -- a region that runs into memory that cannot be read is recorded as far as it can be read (page granular)
-    let l' := Id.run do
+    let l' := if ptraceOnly then l else Id.run do
       let mut a := p
       while a < p + l && readableAt a do
         a := min (p + l) ((a / 4096 + 1) * 4096)
       return a - p
+    if l % 8 != 0 then tags := "app.partialword" :: tags
     if l' < l then tags := "app.short" :: tags
     if !ml.any (fun m => m.start == p && m.size == l') then
       return .propfail s!"application region ({p},{l}) is not in the memory list with that address and {if l' < l then s!"its readable length {l'}" else "length"}" tags
@@ -415,7 +420,7 @@ def runLive07 (kv : List (String × String)) : IO Res := do
         -- without read permission (the prefix is what gets recorded); one that begins in a mapped page without
         -- read permission falls back to /proc/<pid>/mem, which reads every mapped page
         let readableAt (a : Nat) : Bool := lc.maps.any (fun l => l.s ≤ a && a < l.e && l.perms.testBit 0)
-        let len := if readableAt lo then
+        let len := if readableAt lo && !ptraceOnly then
             ((List.range len0).find? (fun k => !readableAt (lo + k))).getD len0
           else len0
         if len < len0 then tags := "ipwindow.short" :: tags
@@ -700,7 +705,15 @@ def runLive0910 (prop : String) (kv : List (String × String)) : IO Res := do
     | .ok l => pure l
     | .error e => return .bad e
   let mut tags := cfgTags lc.cfg
-  if lc.result != "ok" then return .ok ("dump.failed" :: tags)
+  if (get kv "latefail").isSome then tags := "dest.latefail" :: tags
+  if lc.result != "ok" then
+    -- an aborted request (the destination refused a call): nothing before the starting position may have changed
+    if prop == "C09" then
+      if let (some destB, some c0B, some start) := (← readSidecar kv "dest", ← readSidecar kv "c0", getNat kv "start") then
+        for k in [0 : start] do
+          if destB[k]? != c0B[k]? then return .propfail s!"aborted request: byte {k}, before the starting position {start}, was modified" tags
+        tags := "aborted.prefix.checked" :: tags
+    return .ok ("dump.failed" :: tags)
   let some destB ← readSidecar kv "dest" | return .bad "dest"
   let some c0B ← readSidecar kv "c0" | return .bad "c0"
   let some imgB ← readSidecar kv "img" | return .bad "img"
